@@ -463,3 +463,30 @@ PROPS['C05']['quick'] = PROPS['C05']['quick'] + [solve(1367, direct=1, missing=0
 PROPS['C06']['quick'] = PROPS['C06']['quick'] + [sideb(['packages'])]
 PROPS['C06']['thorough'] = PROPS['C06']['thorough'] + [sideb(['packages'])]
 PROPS['C20']['quick'] = PROPS['C20']['quick'] + [sideb(['packages', 'frontend'])]
+
+
+# ---- seed-dependent extra skeletons (lib/skeleton_pool.json: the survey of lib/skeleton_survey.py, every entry ran
+# clean on the unchanged tree within 90 s): VERIF_SEED picks additional provider-graph skeletons for the H_solve checks.
+import json as _json, os as _os, random as _random
+try:
+    _POOL = [e for e in _json.load(open(_os.path.join(_os.path.dirname(__file__), 'skeleton_pool.json'))) if e['ok'] and e['wall'] <= 25]
+except Exception:
+    _POOL = []
+
+
+def _seeded_solve(direct, missing, n_quick=2, n_thorough=8):
+    def f(seed, tier):
+        cands = [e for e in _POOL if e['direct'] == (1 if direct else 0)]
+        if not cands:
+            return []
+        rnd = _random.Random(seed * 7919 + direct)
+        picks = rnd.sample(cands, min(len(cands), n_quick if tier == 'quick' else n_thorough))
+        return [solve(e['skeleton'], K=1, missing=missing, direct=direct) for e in picks]
+    return f
+
+
+PROPS['C02']['seeded_extra'] = _seeded_solve(0, 1)
+PROPS['C06']['seeded_extra'] = _seeded_solve(0, 2)
+PROPS['C08']['seeded_extra'] = _seeded_solve(1, 1)
+PROPS['C10']['seeded_extra'] = _seeded_solve(1, 0)
+PROPS['C11']['seeded_extra'] = _seeded_solve(1, 1)
